@@ -203,6 +203,10 @@ where
     })
 }
 
+fn shift_count(count: i32) -> Option<u32> {
+    if (0..32).contains(&count) { Some(count as u32) } else { None }
+}
+
 impl TypeConstants for SimpleNumber {
     fn one() -> Self {
         Integer(1)
@@ -449,14 +453,14 @@ impl GarnishNumber for SimpleNumber {
 
     fn bitwise_shift_left(self, rhs: Self) -> Option<Self> {
         Some(match (self, rhs) {
-            (Integer(v1), Integer(v2)) => Integer(v1 << v2),
+            (Integer(v1), Integer(v2)) => Integer(v1 << shift_count(v2)?),
             _ => return None,
         })
     }
 
     fn bitwise_shift_right(self, rhs: Self) -> Option<Self> {
         Some(match (self, rhs) {
-            (Integer(v1), Integer(v2)) => Integer(v1 >> v2),
+            (Integer(v1), Integer(v2)) => Integer(v1 >> shift_count(v2)?),
             _ => return None,
         })
     }
